@@ -724,6 +724,13 @@ def race_suite(v, prop, op, tier, seed):
                 facts = case_facts(c)
                 facts["kind"] = "oracle"
                 facts["oracle"] = " ".join(t)
+                # the path of the thread the line is about: "BAD thread 3 op remove_all x6e2f2e2e2f6e failed: ..."
+                hx = next((x for x in t if x.startswith("x") and len(x) > 1), None)
+                if hx:
+                    try:
+                        facts["race_path"] = unhex(hx).decode("latin1")
+                    except Exception:
+                        pass
                 v.fail(facts, case_replay(c, f"concurrent {op} calls: " + " ".join(t[1:])))
     broken = generic_tie(v, [r], set())
     return {"race_rounds": rounds, "race_thread_transcripts_replayed": len(r.cases), "race_bad": bad, "race_tie_mismatches": broken}
@@ -1846,6 +1853,16 @@ def check_C16(v, tier, seed):
     stats = {"stores": 0, "takes_some": 0, "takes_none": 0, "threads": threads, "id_draws_soaked": 0}
     for c in r.cases:
         if c.op == ["errtable_threads"]:
+            for t in c.extra.get("stampede", []):
+                kv = dict(x.split("=", 1) for x in t if "=" in x)
+                stats["stampede_rounds"] = int(kv.get("rounds", "0"))
+                if kv.get("first", "none") != "none":
+                    rnd, i, n = kv["first"].split(":")
+                    v.fail({"kind": "oracle", "oracle": f"id {i} consumed {n} times", "round": int(rnd)},
+                           case_replay(c, f"stampede round {rnd}: the error id {i}, stored once, was handed out by pathrs_errorinfo to {n} of "
+                                          f"{kv.get('threads')} threads that asked for it at the same moment ({kv.get('multi')} rounds with more "
+                                          f"than one consumer, {kv.get('none')} with none)"))
+                    concrete.add((r.name, c.id))
             for t in c.extra.get("soak", []):
                 kv = dict(x.split("=", 1) for x in t if "=" in x)
                 stats["id_draws_soaked"] = int(kv.get("n", "0"))
@@ -1990,6 +2007,14 @@ def main(argv):
             elif not axioms[n] <= vlib.ALLOWED_AXIOMS:
                 bad_axioms[n] = sorted(axioms[n] - vlib.ALLOWED_AXIOMS)
     banned = scan_sources()
+    # thorough tier: the compiled property modules are re-checked by leanchecker, the toolchain's independent checker of
+    # .olean files (a declaration that the elaborator let through and the kernel would not is found here)
+    if lean_ok and tier == "thorough":
+        for _, m in vlib.prop_modules(prop):
+            lrc, lout = vlib.sh(["lake", "env", "leanchecker", m], cwd=vlib.LEAN_DIR, timeout=1800)
+            cov.setdefault("leanchecker", {})[m] = "ok" if lrc == 0 else "FAILED"
+            if lrc != 0:
+                bad_axioms[m] = "leanchecker: " + lout[-300:]
     cov["obligations"] = max(len(names), 1)
     cov["discharged"] = len([n for n in names if n not in bad_axioms]) if lean_ok else 0
     cov["theorems"] = names
